@@ -138,3 +138,23 @@ def closure_binding(db, clo):
                 recv = R.operand(t['args'][0]) if ai > 0 else None
                 return par, R, (par.callee_short(t) or ''), recv, t
     return None
+
+
+def holds_gt(rels, a_pred, b_lin):
+    """Is `a > b` implied by a dominating relation, in any of the forms a > b, a >= b + 1, b < a, b + 1 <= a?"""
+    for r in rels:
+        if r[0] not in ('gt', 'ge', 'lt', 'le'):
+            continue
+        x, y, rel = r[1], r[2], r[0]
+        if rel in ('lt', 'le'):
+            x, y, rel = y, x, {'lt': 'gt', 'le': 'ge'}[rel]
+        if not a_pred(x):
+            continue
+        ly = X.lin(y)
+        d = {k: ly.get(k, 0) - b_lin.get(k, 0) for k in set(ly) | set(b_lin)}
+        d = {k: v for k, v in d.items() if v != 0}
+        if rel == 'gt' and d == {}:
+            return r
+        if rel == 'ge' and d == {'': 1}:
+            return r
+    return None
